@@ -81,6 +81,20 @@ func zzCycle(kind int, p *zzPayload) {
 		zzAssert(err == nil, "ReaderSkipDecoder failed")
 		zzAssertEqBytes(b, p.enc[8:], "ReaderSkipDecoder saw another instance's data")
 		d.Release()
+	case 6:
+		// a value larger than 64 KiB through the pooled io.Reader skip decoder
+		big := append(zzRefU32(70000), zzBytes("big", 70000)...)
+		d := NewReaderSkipDecoder(&zzChunkSrc{data: big, chunk: 1 << 20})
+		b, err := d.Next(STRING)
+		zzAssert(err == nil, "ReaderSkipDecoder failed on a large value")
+		zzAssertEqBytes(b, big, "ReaderSkipDecoder saw another instance's data")
+		d.Release()
+		zzHavocFreed()
+		d2 := NewReaderSkipDecoder(&zzChunkSrc{data: p.enc, chunk: 5})
+		b, err = d2.Next(I64)
+		zzAssert(err == nil, "ReaderSkipDecoder failed")
+		zzAssertEqBytes(b, p.enc[:8], "a reused ReaderSkipDecoder saw another instance's data")
+		d2.Release()
 	case 5:
 		v, l, err := Binary.ReadI64(p.enc)
 		zzAssert(zzAnd(err == nil, v == p.v), "Binary reader saw other data")
